@@ -200,6 +200,8 @@ func c14(tier string, args []string) int {
 		distinct += d
 	}
 	r.Set("evaluations", execs)
+	r.Set("schedules", execs)
+	r.Set("preemption_bound", bound)
 	r.Set("scenarios", len(scenarios))
 	r.Set("distinct_nontrivial", distinct)
 	r.Set("rule", "for every scenario: the two serial orders are executed to get the two allowed outcomes, then every schedule of the two threads within the pre-emption bound is executed on the real code under the cooperative scheduler; oracle: the concurrent outcome (pending and retired operations, every round, signature stores, offset, board appends) equals one of the serial outcomes; distinct = distinct concurrent outcomes observed")
